@@ -22,3 +22,19 @@ Proof.
   split; [apply (nth_error_In _ (leaf_index (class_schema "Cuboid") ["label"])); vm_compute; reflexivity|].
   vm_compute. reflexivity.
 Qed.
+
+(* a new object's style holds no value: all constructor defaults of the style classes are None, except the listed
+   ones; and every leaf of a new style reads None, with the same exceptions *)
+Lemma ctor_defaults_ok_ok : ctor_defaults_ok = true.
+Proof. vm_compute. reflexivity. Qed.
+
+Lemma fresh_all_ok : fresh_all = true.
+Proof. vm_compute. reflexivity. Qed.
+
+(* the exceptions violate the precedence clause: with ONLY the family default of sensor.pixel.size set (to 2),
+   a new Sensor resolves pixel.size to its constructor default 1 *)
+Lemma ctor_default_witness :
+  prec_holds "Sensor" ["pixel"; "size"] (VInt 3) (VInt 4) (VInt 2) (VInt 5) (VInt 6)
+             (mkSrc false false true false false) false NAttr = false /\
+  leaf_is (class_schema "Sensor") (fresh_state (class_schema "Sensor")) ["pixel"; "size"] (Some (VInt 1)) = true.
+Proof. split; vm_compute; reflexivity. Qed.
